@@ -389,3 +389,356 @@ Section DemeRun.
       cbn [run]. apply f_equal, finish_pc_irrel. reflexivity.
   Qed.
 End DemeRun.
+
+(* ---------------------------------------------------------------- deme.run_metaepoch(tree): the dispatch *)
+Definition gens_ok (c : cfg) : Prop := forall lv, 1 <= gens_of c lv.
+
+Lemma run_deme_sim c t d fuel m p evs s1 rest :
+  gens_ok c -> run_deme c fuel d (mk m p) evs = Some (tt, s1, rest) ->
+  exists used m', evs = used ++ rest /\ s1 = mk m' p /\ shape m' = shape m /\
+    run c (set_pc m (PDeme t d 0 (first_sub (kind_of c (lvl d m))))) used = Some (finish c t m').
+Proof.
+  intros G H. unfold run_deme in H. apply bind_inv in H as (lv & sa & ea & Hr & H).
+  unfold r_level, deme_of in Hr. cbn [ms mk] in Hr. injection Hr as <- <- <-. fold (lvl d m) in H.
+  destruct (kind_of c (lvl d m)) eqn:K; cbn [first_sub].
+  - eapply run_pop_sim; eauto.
+  - eapply run_cma_sim; eauto.
+  - eapply run_local_sim; eauto.
+  - eapply run_sampler_sim; eauto.
+Qed.
+
+(* ---------------------------------------------------------------- tree.active_demes and the machine's schedule *)
+Lemma ids_from_and_filter q p : forall l pre,
+  ids_from (length pre) (fun x => q x && p x) l = filter (fun i => p (dnth i (pre ++ l))) (ids_from (length pre) q l).
+Proof.
+  induction l as [|x r IH]; intros pre; [reflexivity|]. cbn [ids_from].
+  assert (E : dnth (length pre) (pre ++ x :: r) = x) by (unfold dnth; rewrite app_nth2 by lia; now rewrite Nat.sub_diag).
+  specialize (IH (pre ++ [x])). rewrite app_length in IH. cbn [length] in IH. rewrite Nat.add_1_r, <- app_assoc in IH. cbn [app] in IH.
+  destruct (q x); cbn [andb filter].
+  - rewrite E. destruct (p x); now rewrite IH.
+  - exact IH.
+Qed.
+Lemma ids_and_filter q p l : ids (fun x => q x && p x) l = filter (fun i => p (dnth i l)) (ids q l).
+Proof. exact (ids_from_and_filter q p l []). Qed.
+Lemma filter_flat_map {A B} (f : B -> bool) (g : A -> list B) l : filter f (flat_map g l) = flat_map (fun a => filter f (g a)) l.
+Proof. induction l as [|a r IH]; simpl; [reflexivity|]. now rewrite filter_app, IH. Qed.
+Lemma filter_rev' {A} (f : A -> bool) l : filter f (rev l) = rev (filter f l).
+Proof. induction l as [|a r IH]; simpl; [reflexivity|]. rewrite filter_app, IH. simpl. destruct (f a); simpl; [reflexivity|now rewrite app_nil_r]. Qed.
+Lemma filter_filter {A} (f g : A -> bool) l : filter f (filter g l) = filter (fun x => g x && f x) l.
+Proof. induction l as [|a r IH]; simpl; [reflexivity|]. destruct (g a); simpl; [destruct (f a)|]; now rewrite IH. Qed.
+
+Lemma level_order_active_demes c p ds :
+  level_order (height c) p ds = filter (fun i => p (dnth i ds)) (flat_map (fun l => level_ids ds l) (seq 0 (height c))).
+Proof.
+  unfold level_order. rewrite filter_flat_map. apply flat_map_ext. intros l. unfold level_ids. apply ids_and_filter.
+Qed.
+Lemma active_demes_spec c ds : active_demes c ds = level_order (height c) d_active ds.
+Proof. rewrite level_order_active_demes. unfold active_demes. now rewrite filter_flat_map. Qed.
+
+(* the machine's schedule (those due at the start of the metaepoch) = the active demes minus the hibernating ones *)
+Lemma schedule_spec c ds :
+  level_order (height c) d_should (map (mark_step (hib_on c)) ds) =
+  filter (fun i => negb (hib_on c && d_hib (dnth i ds))) (active_demes c ds).
+Proof.
+  rewrite active_demes_spec, !level_order_active_demes, filter_filter.
+  assert (E : forall l, level_ids (map (mark_step (hib_on c)) ds) l = level_ids ds l).
+  { intros l. unfold level_ids, ids. generalize 0. induction ds as [|x r IH]; intros k; [reflexivity|]. cbn [map ids_from].
+    change (d_lvl (mark_step (hib_on c) x)) with (d_lvl x). destruct (Nat.eqb (d_lvl x) l); now rewrite IH. }
+  rewrite (flat_map_ext _ _ E).
+  apply filter_ext_in. intros i Hi. apply in_flat_map in Hi as (l & _ & Hi). apply ids_spec in Hi as (Hi & _).
+  rewrite dnth_map by exact Hi. reflexivity.
+Qed.
+
+(* ---------------------------------------------------------------- DemeTree.run_metaepoch *)
+Definition awake (c : cfg) (m : st) (i : nat) : bool := negb (hib_on c && d_hib (dnth i (demes m))).
+Definition meta_body (c : cfg) (fuel : nat) (d : nat) : D bool :=
+  h <- r_hibernating d ;; if hib_on c && h then ret false else run_deme c fuel d ;;; ret false.
+
+Lemma awake_shape c m m' : shape m' = shape m -> forall i, awake c m' i = awake c m i.
+Proof. intros S i. unfold awake. now rewrite (shape_hib i m m' S). Qed.
+
+Lemma metaepoch_loop_sim c fuel : gens_ok c -> forall todo m p evs b s1 rest,
+  for_ todo (meta_body c fuel) (mk m p) evs = Some (b, s1, rest) ->
+  exists used m', evs = used ++ rest /\ s1 = mk m' p /\ b = false /\ shape m' = shape m /\
+    run c (begin_deme c (filter (awake c m) todo) m) used = Some (set_pc m' PStepGsc).
+Proof.
+  intros G. induction todo as [|d r IH]; intros m p evs b s1 rest H.
+  - apply ret_inv in H. injection H as -> -> ->. exists [], m. repeat split; auto.
+  - cbn [for_] in H. apply bind_inv in H as (x & sa & ea & Hb & H). unfold meta_body in Hb.
+    apply bind_inv in Hb as (h & sb & eb & Hh & Hb). unfold r_hibernating, deme_of in Hh. cbn [ms mk] in Hh. injection Hh as <- <- <-.
+    cbn [filter]. unfold awake at 1.
+    destruct (hib_on c && d_hib (dnth d (demes m))) eqn:E; cbn [negb].
+    + apply ret_inv in Hb. injection Hb as -> -> ->. now apply IH in H.
+    + apply bind_inv in Hb as ([] & sc & ec & Hd & Hb). apply ret_inv in Hb. injection Hb as -> -> ->.
+      apply (run_deme_sim c (filter (awake c m) r) d) in Hd as (u1 & m1 & -> & -> & S1 & R1); [|exact G].
+      apply IH in H as (u2 & m2 & -> & -> & -> & S2 & R2).
+      exists (u1 ++ u2), m2. split; [now rewrite app_assoc|]. split; [reflexivity|]. split; [reflexivity|]. split; [congruence|].
+      rewrite run_app. cbn [begin_deme]. fold (lvl d m). rewrite R1. unfold finish.
+      rewrite (filter_ext _ _ (awake_shape c m m1 S1)) in R2. exact R2.
+Qed.
+
+Lemma run_metaepoch_sim c fuel m p evs s1 rest :
+  gens_ok c -> run_metaepoch c fuel (mk m p) evs = Some (tt, s1, rest) ->
+  exists used m', evs = used ++ rest /\ s1 = mk m' p /\ shape m' = shape m /\
+    run c (begin_deme c (filter (awake c m) (rev (active_demes c (demes m)))) m) used = Some (set_pc m' PStepGsc).
+Proof.
+  intros G H. unfold run_metaepoch in H. apply bind_inv in H as (s0 & sa & ea & Hg & H).
+  unfold get_st in Hg. cbn [ms mk] in Hg. injection Hg as <- <- <-.
+  apply bind_inv in H as (b & sb & eb & Hl & H). apply ret_inv in H. injection H as -> ->.
+  apply (metaepoch_loop_sim c fuel G) in Hl as (used & m' & -> & -> & _ & S & R). exists used, m'. auto.
+Qed.
+
+(* ---------------------------------------------------------------- DemeTree._do_sprout *)
+Lemma sprout_children_sim p target : forall ks m inits evs b s1 rest,
+  for_ ks (fun _ : Z => sprout_child p target) (mk m inits) evs = Some (b, s1, rest) ->
+  b = false /\ rest = evs /\
+  s1 = mk (set_demes m (fst (sprout_one p target (mcount m) ks inits (demes m)))) (snd (sprout_one p target (mcount m) ks inits (demes m))).
+Proof.
+  induction ks as [|k ks IH]; intros m inits evs b s1 rest H.
+  - apply ret_inv in H. injection H as -> -> ->. cbn [sprout_one fst snd]. repeat split. destruct m; reflexivity.
+  - cbn [for_] in H. apply bind_inv in H as (x & sa & ea & Hb & H). unfold sprout_child in Hb.
+    apply bind_inv in Hb as (mc & sb & eb & Hm & Hb). unfold r_metaepoch_count in Hm. cbn [ms mk] in Hm. injection Hm as <- <- <-.
+    apply bind_inv in Hb as (ch & sc & ec & Hi & Hb). unfold p_init_from_config in Hi. rewrite Nat.eqb_refl in Hi. cbn [negb pend mk] in Hi.
+    destruct inits as [|n inits']; [discriminate|]. injection Hi as <- <- <-.
+    apply bind_inv in Hb as ([] & sd & ed & Ha & Hb). unfold p_append_level in Ha. cbn [add_child set_d d_lvl] in Ha.
+    rewrite Nat.eqb_refl in Ha. cbn [negb ms with_ms] in Ha. injection Ha as <- <-.
+    apply ret_inv in Hb. injection Hb as -> -> ->.
+    apply IH in H as (-> & -> & ->). repeat split; cbn [sprout_one hd tl mcount set_demes with_state demes]; reflexivity.
+Qed.
+
+Lemma sprout_one_app_prefix par lvl m ks inits ds : exists new, fst (sprout_one par lvl m ks inits ds) = ds ++ new.
+Proof.
+  revert inits ds; induction ks as [|k ks IH]; intros inits ds; cbn [sprout_one fst]; [exists []; now rewrite app_nil_r|].
+  destruct (IH (tl inits) (ds ++ [new_deme lvl par m (hd 0 inits)])) as (new & ->). eexists. now rewrite <- app_assoc.
+Qed.
+
+Lemma do_sprout_b_loop_sim ds0 : forall seeds m inits evs b s1 rest,
+  (forall pk, In pk seeds -> fst pk < length ds0) -> (exists new, demes m = ds0 ++ new) ->
+  for_ seeds (fun pk : nat * list Z => lv <- r_level (fst pk) ;; for_ (snd pk) (fun _ => sprout_child (fst pk) (S lv))) (mk m inits) evs = Some (b, s1, rest) ->
+  b = false /\ rest = evs /\ exists p', s1 = mk (set_demes m (do_sprout (mcount m) seeds inits (fun i => d_lvl (dnth i ds0)) (demes m))) p'.
+Proof.
+  induction seeds as [|[p ks] seeds IH]; intros m inits evs b s1 rest V (new & P) H.
+  - apply ret_inv in H. injection H as -> -> ->. repeat split. exists inits. cbn [do_sprout]. destruct m; reflexivity.
+  - cbn [for_] in H. apply bind_inv in H as (x & sa & ea & Hb & H). cbn [fst snd] in Hb.
+    apply bind_inv in Hb as (lv & sb & eb & Hl & Hb). unfold r_level, deme_of in Hl. cbn [ms mk] in Hl. injection Hl as <- <- <-.
+    apply sprout_children_sim in Hb as (-> & -> & ->).
+    assert (Ep : d_lvl (dnth p (demes m)) = d_lvl (dnth p ds0)).
+    { rewrite P. rewrite dnth_app_l; [reflexivity|]. apply (V (p, ks)). now left. }
+    apply IH in H as (-> & -> & p' & ->).
+    + repeat split. exists p'. cbn [do_sprout]. rewrite Ep.
+      destruct (sprout_one p (S (d_lvl (dnth p ds0))) (mcount m) ks inits (demes m)) as [ds' inits'] eqn:E. cbn [fst snd mcount set_demes with_state demes].
+      destruct m; reflexivity.
+    + intros pk Hpk. apply V. now right.
+    + cbn [demes set_demes with_state]. destruct (sprout_one_app_prefix p (S (d_lvl (dnth p (demes m)))) (mcount m) ks inits (demes m)) as (n2 & ->).
+      rewrite P. exists (new ++ n2). now rewrite app_assoc.
+Qed.
+
+Lemma do_sprout_nonempty m lvl_of : forall seeds inits ds, do_sprout m (nonempty seeds) inits lvl_of ds = do_sprout m seeds inits lvl_of ds.
+Proof.
+  induction seeds as [|[p ks] seeds IH]; intros inits ds; [reflexivity|]. unfold nonempty in *. cbn [filter snd do_sprout].
+  destruct ks as [|k ks]; cbn [length Nat.eqb negb].
+  - cbn [sprout_one]. apply IH.
+  - cbn [do_sprout]. destruct (sprout_one p (S (lvl_of p)) m (k :: ks) inits ds). apply IH.
+Qed.
+
+(* ---------------------------------------------------------------- the hibernation flags after a round *)
+Lemma hib_loop_sim (f : nat -> bool) : forall l m p evs b s1 rest,
+  for_ l (fun d => p_set_hibernating d (f d) ;;; ret false) (mk m p) evs = Some (b, s1, rest) ->
+  b = false /\ rest = evs /\ s1 = mk (set_demes m (fold_left (fun ds d => upd d (set_hib (f d)) ds) l (demes m))) p.
+Proof.
+  induction l as [|d l IH]; intros m p evs b s1 rest H.
+  - apply ret_inv in H. injection H as -> -> ->. repeat split. destruct m; reflexivity.
+  - cbn [for_] in H. apply bind_inv in H as (x & sa & ea & Hb & H). apply bind_inv in Hb as ([] & sb & eb & Hs & Hb).
+    unfold p_set_hibernating in Hs. cbn [ms mk with_ms] in Hs. injection Hs as <- <-. apply ret_inv in Hb. injection Hb as -> -> ->.
+    apply IH in H as (-> & -> & ->). repeat split; cbn [fold_left demes set_demes with_state]; destruct m; reflexivity.
+Qed.
+
+Lemma fold_upd_dnth (f : nat -> deme -> deme) j : forall l ds, NoDup l ->
+  dnth j (fold_left (fun ds d => upd d (f d) ds) l ds) = if existsb (Nat.eqb j) l && (j <? length ds) then f j (dnth j ds) else dnth j ds.
+Proof.
+  induction l as [|d l IH]; intros ds N; [reflexivity|]. inversion N as [|? ? Nd Nl]; subst. cbn [fold_left existsb].
+  rewrite IH by assumption. rewrite upd_length.
+  destruct (Nat.eqb_spec j d) as [->|Ne].
+  - assert (E : existsb (Nat.eqb d) l = false).
+    { destruct (existsb (Nat.eqb d) l) eqn:E; [|reflexivity]. apply existsb_exists in E as (x & Hx & Hx'). apply Nat.eqb_eq in Hx'. subst. contradiction. }
+    rewrite E. cbn [orb andb]. rewrite dnth_upd, Nat.eqb_refl. cbn [andb]. reflexivity.
+  - cbn [orb]. rewrite dnth_upd_other by congruence. reflexivity.
+Qed.
+Lemma fold_upd_length (f : nat -> deme -> deme) : forall l ds, length (fold_left (fun ds d => upd d (f d) ds) l ds) = length ds.
+Proof. induction l as [|d l IH]; intros ds; cbn [fold_left]; [reflexivity|]. now rewrite IH, upd_length. Qed.
+
+Lemma existsb_same_elements j l l' : (forall x, In x l <-> In x l') -> existsb (Nat.eqb j) l = existsb (Nat.eqb j) l'.
+Proof.
+  intros H. apply eq_true_iff_eq. rewrite !existsb_exists. split; intros (x & Hx & E); exists x; split; auto; now apply H.
+Qed.
+Lemma in_seeds_nonempty seeds i : in_seeds (nonempty seeds) i = has_seeds seeds i.
+Proof.
+  unfold in_seeds, has_seeds, nonempty. induction seeds as [|[p ks] r IH]; [reflexivity|]. cbn [filter existsb fst snd].
+  destruct (negb (Nat.eqb (length ks) 0)) eqn:E; cbn [existsb fst].
+  - now rewrite IH, andb_true_r.
+  - now rewrite IH, andb_false_r.
+Qed.
+
+Lemma active_non_leaves_spec c ds : active_non_leaves c ds = level_order (height c - 1) d_active ds.
+Proof.
+  unfold active_non_leaves, level_order. apply flat_map_ext. intros l. unfold level_ids.
+  rewrite ids_and_filter. reflexivity.
+Qed.
+
+Lemma hibs_agree c seeds ds0 ds1 :
+  length ds0 <= length ds1 -> (forall i, i < length ds0 -> dnth i ds1 = dnth i ds0) ->
+  fold_left (fun ds d => upd d (set_hib (negb (in_seeds (nonempty seeds) d))) ds) (rev (active_non_leaves c ds0)) ds1 =
+  set_hibs 0 (ids (fun d => d_active d && (S (d_lvl d) <? height c)) ds0) seeds ds1.
+Proof.
+  intros L P. apply list_eq_dnth; [now rewrite fold_upd_length, set_hibs_length|].
+  rewrite fold_upd_length. intros j Hj.
+  rewrite (fold_upd_dnth (fun d => set_hib (negb (in_seeds (nonempty seeds) d)))).
+  2:{ apply NoDup_rev. rewrite active_non_leaves_spec. apply level_order_NoDup. }
+  rewrite set_hibs_dnth by exact Hj. cbn [Nat.add]. rewrite in_seeds_nonempty.
+  assert (E : existsb (Nat.eqb j) (rev (active_non_leaves c ds0)) = existsb (Nat.eqb j) (ids (fun d => d_active d && (S (d_lvl d) <? height c)) ds0)).
+  { apply existsb_same_elements. intros x. rewrite <- in_rev, active_non_leaves_spec, level_order_spec, ids_spec.
+    split.
+    - intros (H1 & H2 & H3). split; [exact H1|]. rewrite H3. cbn [andb]. apply Nat.ltb_lt. lia.
+    - intros (H1 & H2). apply andb_prop in H2 as (H2 & H3). apply Nat.ltb_lt in H3. repeat split; auto. lia. }
+  rewrite E. apply Nat.ltb_lt in Hj. rewrite Hj, andb_true_r. reflexivity.
+Qed.
+
+(* ---------------------------------------------------------------- DemeTree.run_sprout = the machine's sprouting step *)
+Lemma seeds_parents_valid c ds cands post pk :
+  seeds_valid c ds cands = true ->
+  In pk (nonempty (mask_cmap (match level_lim c with Some L => level_limit (maximize c) L (fun i => d_lvl (dnth i ds)) (active_at ds) cands | None => cands end) post)) ->
+  fst pk < length ds.
+Proof.
+  intros V H. unfold nonempty in H. apply filter_In in H as (H & _).
+  assert (Hin : In (fst pk) (map fst cands)).
+  { apply (in_map fst) in H. apply mask_cmap_fst_in in H. destruct (level_lim c); [now rewrite level_limit_fst in H|exact H]. }
+  now apply (seeds_parent_valid c ds cands (fst pk) V) in Hin.
+Qed.
+
+Lemma run_sprout_sim c m p evs s1 rest :
+  run_sprout c (mk m p) evs = Some (tt, s1, rest) ->
+  exists e m' p', evs = e :: rest /\ s1 = mk m' p' /\ step c (set_pc m PSprout) e = Some (set_pc m' PMain).
+Proof.
+  intros H. unfold run_sprout in H. apply bind_inv in H as (s0 & sa & ea & Hg & H).
+  unfold get_st in Hg. cbn [ms mk] in Hg. injection Hg as <- <- <-.
+  apply bind_inv in H as (seeds & sb & eb & Hs & H). unfold p_get_seeds in Hs.
+  destruct evs as [|[| | | | |cands post inits] r]; try discriminate. cbn [ms mk] in Hs.
+  set (ds := demes m) in *. set (lvl_of := fun i => d_lvl (dnth i ds)) in *.
+  set (c1 := match level_lim c with Some L => level_limit (maximize c) L lvl_of (active_at ds) cands | None => cands end) in *.
+  set (sd := mask_cmap c1 post) in *.
+  destruct (negb (seeds_valid c ds cands) || negb (Nat.eqb (length post) (length cands)) || negb (Nat.eqb (length inits) (total_seeds sd))) eqn:E; [discriminate|].
+  injection Hs as <- <- <-.
+  assert (V : seeds_valid c ds cands = true).
+  { apply orb_false_iff in E as (E & _). apply orb_false_iff in E as (E & _). now apply negb_false_iff in E. }
+  apply bind_inv in H as ([] & sc & ec & Hd & H). unfold do_sprout_b in Hd.
+  apply bind_inv in Hd as (b & sd' & ed & Hd & Hr). apply ret_inv in Hr. injection Hr as -> ->.
+  apply (do_sprout_b_loop_sim ds) in Hd as (-> & -> & p' & ->).
+  2:{ intros pk Hpk. eapply seeds_parents_valid; eauto. }
+  2:{ exists []. cbn [demes with_state]. now rewrite app_nil_r. }
+  cbn [mcount demes with_state] in H. rewrite do_sprout_nonempty in H.
+  exists (ESprout cands post inits). 
+  unfold step. cbn [pc set_pc with_state demes mcount seen steps clock born_after_seen last_round].
+  fold ds. fold lvl_of. fold c1. fold sd. rewrite E.
+  destruct (hib_on c).
+  - apply bind_inv in H as (b & se & ee & Hh & H). apply ret_inv in H. injection H as -> ->.
+    apply hib_loop_sim in Hh as (-> & -> & ->). cbn [demes set_demes with_state] in *.
+    eexists. exists p'. split; [reflexivity|]. split; [reflexivity|].
+    fold ds. rewrite (hibs_agree c sd ds).
+    + reflexivity.
+    + rewrite do_sprout_length. lia.
+    + intros i Hi. now apply do_sprout_prefix.
+  - apply ret_inv in H. injection H as -> ->. eexists. exists p'. split; [reflexivity|]. split; [reflexivity|]. reflexivity.
+Qed.
+
+(* ---------------------------------------------------------------- DemeTree.run_step and run *)
+Lemma schedule_rev c ds :
+  let ds1 := map (mark_step (hib_on c)) ds in
+  rev (level_order (height c) d_should ds1) = filter (fun i => negb (hib_on c && d_hib (dnth i ds1))) (rev (active_demes c ds1)).
+Proof.
+  intros ds1. rewrite filter_rev'. f_equal.
+  rewrite active_demes_spec, !level_order_active_demes, filter_filter.
+  apply filter_ext_in. intros i Hi. apply in_flat_map in Hi as (l & _ & Hi). apply ids_spec in Hi as (Hi & _).
+  unfold ds1 in *. rewrite map_length in Hi. rewrite dnth_map by exact Hi. reflexivity.
+Qed.
+
+Definition inc_st (c : cfg) (m : st) : st :=
+  with_state m (S (mcount m)) (map (mark_step (hib_on c)) (demes m)) (pc m) (seen m) (S (steps m)) (clock m) (born_after_seen m) (last_round m).
+
+Lemma seen_or_false m : seen_or m false = m.
+Proof. unfold seen_or. rewrite orb_false_r. destruct m; reflexivity. Qed.
+
+Lemma step_main_false c m :
+  (negb (consistent (gsc_eval (gsc c) (height c) m) false) || (seen m && negb false)) = false ->
+  step c (set_pc m PMain) (EGsc false) =
+  Some (begin_deme c (rev (level_order (height c) d_should (map (mark_step (hib_on c)) (demes m)))) (inc_st c m)).
+Proof.
+  intros G. unfold step. cbn [pc set_pc with_state]. rewrite gsc_eval_set_pc. cbn [seen set_pc with_state]. rewrite G.
+  cbn [demes mcount steps clock born_after_seen last_round seen]. f_equal; try (unfold begin_deme, inc_st; destruct (rev _); reflexivity).
+Qed.
+Lemma step_main_true c m :
+  (negb (consistent (gsc_eval (gsc c) (height c) m) true) || (seen m && negb true)) = false ->
+  step c (set_pc m PMain) (EGsc true) = Some (set_pc (seen_or m true) PDone).
+Proof.
+  intros G. unfold step. cbn [pc set_pc with_state]. rewrite gsc_eval_set_pc. cbn [seen set_pc with_state]. rewrite G.
+  unfold seen_or. rewrite orb_true_r. reflexivity.
+Qed.
+Lemma step_stepgsc c m v :
+  (negb (consistent (gsc_eval (gsc c) (height c) m) v) || (seen m && negb v)) = false ->
+  step c (set_pc m PStepGsc) (EGsc v) = Some (set_pc (seen_or m v) (if v then PMain else PSprout)).
+Proof.
+  intros G. unfold step. cbn [pc set_pc with_state]. rewrite gsc_eval_set_pc. cbn [seen set_pc with_state]. rewrite G. reflexivity.
+Qed.
+
+Lemma run_step_sim c fuel m p evs s1 rest :
+  gens_ok c ->
+  (negb (consistent (gsc_eval (gsc c) (height c) m) false) || (seen m && negb false)) = false ->
+  run_step c fuel (mk m p) evs = Some (tt, s1, rest) ->
+  exists used m' p', evs = used ++ rest /\ s1 = mk m' p' /\ run c (set_pc m PMain) (EGsc false :: used) = Some (set_pc m' PMain).
+Proof.
+  intros G Gv H. unfold run_step in H. apply bind_inv in H as ([] & sa & ea & Hi & H).
+  unfold p_inc_metaepoch in Hi. cbn [ms mk with_ms] in Hi. injection Hi as <- <-. fold (inc_st c m) in H.
+  apply bind_inv in H as ([] & sb & eb & Hm & H).
+  apply run_metaepoch_sim in Hm as (u1 & m1 & -> & -> & S1 & R1); [|exact G].
+  apply bind_inv in H as (v & sc & ec & Hv & H). apply p_gsc_inv in Hv as (-> & -> & Gv1).
+  assert (R0 : forall used, run c (set_pc m PMain) (EGsc false :: used) =
+                            run c (begin_deme c (filter (awake c (inc_st c m)) (rev (active_demes c (demes (inc_st c m))))) (inc_st c m)) used).
+  { intros used. rewrite run_cons, step_main_false by exact Gv. pose proof (schedule_rev c (demes m)) as SR. cbn zeta in SR. rewrite SR. reflexivity. }
+  destruct v.
+  - apply ret_inv in H. injection H as -> ->. exists (u1 ++ [EGsc true]), (seen_or m1 true), p.
+    split; [now rewrite <- app_assoc|]. split; [reflexivity|].
+    rewrite R0, run_app, R1. cbn [run]. now rewrite step_stepgsc.
+  - apply run_sprout_sim in H as (e & m2 & p2 & -> & -> & R2).
+    exists (u1 ++ [EGsc false; e]), m2, p2. split; [now rewrite <- app_assoc|]. split; [reflexivity|].
+    rewrite R0, run_app, R1. rewrite run_cons, step_stepgsc by exact Gv1. rewrite run_cons, R2. reflexivity.
+Qed.
+
+Lemma run_tree_loop_sim c fuel : gens_ok c -> forall f m p evs r s1 rest,
+  while_ f (fun _ : unit => v <- p_gsc c ;; ret (negb v)) (fun _ => run_step c fuel ;;; ret (tt, false)) tt (mk m p) evs = Some (r, s1, rest) ->
+  exists used m' p', evs = used ++ rest /\ s1 = mk m' p' /\ run c (set_pc m PMain) used = Some (set_pc m' PDone).
+Proof.
+  intros G. induction f as [|f IH]; intros m p evs r s1 rest H; [discriminate|].
+  cbn [while_] in H. apply bind_inv in H as (b & sa & ea & Hc & H).
+  apply bind_inv in Hc as (v & sb & eb & Hv & Hc). apply p_gsc_inv in Hv as (-> & -> & Gv). apply ret_inv in Hc. injection Hc as -> -> ->.
+  destruct v; cbn [negb] in H.
+  - apply ret_inv in H. injection H as -> -> ->. exists [EGsc true], (seen_or m true), p. split; [reflexivity|]. split; [reflexivity|].
+    cbn [run]. now rewrite step_main_true.
+  - apply bind_inv in H as (rb & sc & ec & Hb & H). apply bind_inv in Hb as ([] & sd & ed & Hs & Hb).
+    apply ret_inv in Hb. injection Hb as -> -> ->. cbn [snd fst] in H.
+    rewrite seen_or_false in Hs. apply run_step_sim in Hs as (u1 & m1 & p1 & -> & -> & R1); auto.
+    apply IH in H as (u2 & m2 & p2 & -> & -> & R2).
+    exists (EGsc false :: u1 ++ u2), m2, p2. split; [cbn [app]; now rewrite app_assoc|]. split; [reflexivity|].
+    change (EGsc false :: u1 ++ u2) with ((EGsc false :: u1) ++ u2). rewrite run_app, R1. exact R2.
+Qed.
+
+(* THE SIMULATION THEOREM: whatever the translated run() does on an event stream is a run the small-step machine accepts, with the
+   same final state (up to the control point) *)
+Theorem run_tree_sim c fuel s evs s' rest :
+  gens_ok c -> pc s = PMain ->
+  exec (run_tree c fuel) s evs = Some (tt, s', rest) ->
+  exists used s'', evs = used ++ rest /\ run c s used = Some s'' /\ pc s'' = PDone /\ set_pc s'' PMain = set_pc s' PMain.
+Proof.
+  intros G P H. unfold exec in H. destruct (run_tree c fuel {| ms := s; pend := [] |} evs) as [[[[] sx] rx]|] eqn:E; [|discriminate].
+  injection H as <- <-. unfold run_tree in E. apply bind_inv in E as (r & sa & ea & Hl & E). apply ret_inv in E. injection E as -> ->.
+  apply (run_tree_loop_sim c fuel G) in Hl as (used & m' & p' & -> & -> & R).
+  rewrite <- P, set_pc_same in R. exists used, (set_pc m' PDone). repeat split; auto; cbn [ms mk]; now rewrite set_pc_set_pc.
+Qed.
